@@ -867,6 +867,11 @@ func describe(expected px.Type, actual px.Type, path []*pathElement) []mismatch 
 }
 
 func internalDescribe(expected px.Type, original, actual px.Type, path []*pathElement) []mismatch {
+	if px.IsAssignable(expected, actual) {
+		// nothing to describe: the describers below explain why a type is not assignable and do not
+		// repeat the decomposition of the actual type (Unit, Variant, Optional, NotUndef) that decides it
+		return NoMismatch
+	}
 	switch expected := expected.(type) {
 	case *types.VariantType:
 		return describeVariantType(expected, original, actual, path)
